@@ -40,7 +40,7 @@ PROBES = ['zero-size-array-element', 'deep-nesting', 'unterminated-container', '
           'lying-body-length', 'truncated-then-closed', 'bitflip-survived-as-message',
           'exception-closed-only-that-connection', 'other-peer-call-completed-after-fault',
           'client-pending-calls-failed-on-drop', 'hostile-variant-signature', 'unknown-message-type',
-          'wrong-header-field-type', 'budget-margin-over-10x']
+          'wrong-header-field-type', 'budget-margin-over-10x', 'lying-string-length']
 COMPONENTS = {
     'real': ['txdbus.message.parseMessage (counting pass-through wrapper)', 'txdbus.marshal.unmarshal*',
              'txdbus.protocol framing', 'txdbus.bus.Bus / BusProtocol', 'txdbus.client.DBusClientConnection'],
@@ -136,7 +136,7 @@ def raw_message(mtype, serial, fields, sig, body_bytes, little=True, flags=0, bo
 def mutate(ds, sim, little_serial):
     """-> (kind, bytes to write, close_after)"""
     serial = little_serial
-    kind = ds.weighted([3, 2, 2, 2, 1.5, 5, 1.5, 1])
+    kind = ds.weighted([3, 2, 2, 2, 1.5, 5, 1.5, 1, 3])
     base = gen.random_message(ds, serial, mtypes=(1, 4, 2, 3), maxsig=3)
     if rc.F_DESTINATION in base.fields:
         base.fields[rc.F_DESTINATION] = 'org.freedesktop.DBus'
@@ -199,6 +199,33 @@ def mutate(ds, sim, little_serial):
         m = rc.Msg(ds.pick([1, 4]), serial, f, '', [], extra=[(code, s, v)])
         sim.probe('wrong-header-field-type')
         return 'header-field-type', m.encode(), False
+    if kind == 8:
+        # a string / object-path / signature length prefix that lies (also >= 2^31: a decoder
+        # that reads it as a signed number moves backwards)
+        little = not ds.flag(0.3)
+        e = '<' if little else '>'
+        lie = ds.pick([0xFFFFFFF0, 0xFFFFFFF1, 0xFFFFFFF4, 0xFFFFFFF6, 0xFFFFFFFF, 2**31, 2**31 + 5,
+                       0x7FFFFFFF, 1000, 2**27, 0xFFFFFFF8, 0xFFFFFFEC])
+        where = ds.choose(4)
+        sim.probe('lying-string-length')
+        if where == 0:
+            # the PATH header field (first field: its length prefix sits at offset 20)
+            m = rc.Msg(ds.pick([1, 4]), serial, {rc.F_PATH: '/h/i', rc.F_MEMBER: 'M',
+                                                rc.F_INTERFACE: 'org.sim.H'}, 's', ['x'], little=little)
+            raw2 = bytearray(m.encode())
+            struct.pack_into(e + 'I', raw2, 20, lie)
+            return 'string-length', bytes(raw2), False
+        sig = ['s', 'as', 'a(s)', 'a{ss}'][where] if where < 4 else 's'
+        pad = b'abc\0' * ds.pick([1, 4, 40])
+        if sig == 's':
+            body = struct.pack(e + 'I', lie) + pad
+        elif sig == 'as':
+            body = struct.pack(e + 'I', ds.pick([len(pad) + 4, 64, 2**31])) + struct.pack(e + 'I', lie) + pad
+        else:
+            body = struct.pack(e + 'I', ds.pick([len(pad) + 8, 64])) + b'\0\0\0\0' + struct.pack(e + 'I', lie) + pad
+        f = {rc.F_PATH: '/h', rc.F_MEMBER: 'M', rc.F_INTERFACE: 'org.sim.H',
+             rc.F_DESTINATION: 'org.freedesktop.DBus'}
+        return 'string-length', raw_message(ds.pick([4, 1]), serial, f, sig, body, little), False
     mt = ds.pick([0, 5, 6, 255])
     base2 = bytearray(rc.Msg(4, serial, {rc.F_PATH: '/h', rc.F_MEMBER: 'M',
                                          rc.F_INTERFACE: 'org.sim.H'}).encode())
